@@ -90,6 +90,18 @@ def step16 (d : D16) (op : String) (got : String) : StepResult D16 :=
       | some x => { st := { cands := [SSt.init x] }, expected := some "ok" }
       | none => { st := d, expected := some "bad-op" }
     | _ => { st := d, expected := some "bad-op" }
+  else if op.startsWith "faces," then
+    -- concurrent registrations in the face table: each face gets its own identifier and is found
+    -- under it (and no longer after removal); sequential specification of `Table.Add/Get/Remove`
+    match ((op.drop 6).toString).toNat? with
+    | none => { st := d, expected := some "bad-op" }
+    | some k =>
+      if isCrash got then { st := d, spec := crashSpec got }
+      else
+        let want := s!"n={k} distinct=true consistent=true"
+        { st := d, expected := some want, cov := ["face-table-round"],
+          spec := if got != want then
+            [⟨"face-table", "add", s!"{k} concurrent face registrations: {got} (every face must get its own identifier and be found under it)"⟩] else [] }
   else if op.startsWith "par " then
     let spec := (op.drop 4).toString
     match parseThreads spec with
